@@ -1,7 +1,9 @@
 import Driver.Proto
 import IronCalc.Text.F4
+import IronCalc.Text.F4Lex
+import IronCalc.Formula.LexCfgs
 import IronCalc.Codec.CharClassTable
-open IronCalc.Codec IronCalc.F4
+open IronCalc.Codec IronCalc.F4 IronCalc.Formula
 namespace Driver
 
 private def parseSpans (s : String) : Option (List (Nat × Nat)) :=
@@ -25,6 +27,16 @@ def c34 (args : List String) : String :=
       | some (t, a, b) => s!"{hexEncode (String.ofList t)} {a} {b}"
       | none => "err"
     | _, _, _, _ => "bad-op"
+  | ["lexcyc", h, s, e] =>
+    -- the spans come from the Lean lexer (en language, `.` decimal: the harness model's settings)
+    match hexDecode h, s.toNat?, e.toNat? with
+    | some v, some s, some e =>
+      let sp := valueSpans cfgEn v.toList
+      let spStr := if sp.isEmpty then "-" else ",".intercalate (sp.map fun p => s!"{p.1}-{p.2}")
+      match cycleReferenceLex cfgEn v.toList s e with
+      | some (t, a, b) => s!"{hexEncode (String.ofList t)} {a} {b} | {spStr}"
+      | none => s!"err | {spStr}"
+    | _, _, _ => "bad-op"
   | ["endpoint", h] =>
     match hexDecode h with
     | some v => hexEncode (String.ofList (cycleEndpoint v.toList))
